@@ -347,6 +347,16 @@ def run_polars(rep, rng, n):
                 sp["default"] = rng.choice(A.POOL[sp["dtype"]])
                 sp["checks"] = []
                 sp["unique"] = False
+        if it % 4 == 1:
+            # directed: a non-nullable regex column with a default and a missing value in a matched column, no other
+            # parsing option
+            c = P.gen_case(rng, regex_rate=0.6, index_schema_rate=0.0, conform_bias=1.0, max_rows=4)
+            S, D = c["schema"], c["frame"]
+            S.update(addMissing=False, strict="no", coerce=False, ordered=False)
+            for sp in S["columns"]:
+                sp["coerce"] = False
+                if sp["regex"] is not None:
+                    sp["nullable"] = False
         if not D["cols"]:
             continue
         S["index"] = None
